@@ -390,6 +390,38 @@ Definition wheel_cand (id : N) (v : version) (build pyf abif platf : string) (fn
 Definition sdist_cand (id : N) (v : version) (fn : string) : cand :=
   mkCand id v "" Sdist None None ["any"] (Some fn).
 
+(* _wheel_filename_to_candidate, as far as the tags and the build tag are concerned (the version
+   string is parsed by C14's model; here it is handed over): basename, [:-4], split("-"),
+   fewer than 5 parts -> None, exactly 6 parts -> the third is the build tag and is popped,
+   then name = [0], version = [1], python = [2], abi = [3], platform = [4] *)
+Definition dash : ascii := "-"%char.
+Definition slash : ascii := "/"%char.
+Definition drop_last (n : nat) (s : string) : string := rev_str (drop n (rev_str s)).
+Definition basename (path : string) : string := last (split_char slash path) EmptyString.
+
+Record wheel_fields := mkWF {
+  wf_name : string; wf_version : string; wf_build : string;
+  wf_py : string; wf_abi : string; wf_plat : string; wf_file : string }.
+
+Definition wheel_fields_of (filename : string) : option wheel_fields :=
+  let base := basename filename in
+  match split_char dash (drop_last 4 base) with
+  | [n; v; b; p; a; pl] => Some (mkWF n v b p a pl base)
+  | n :: v :: p :: a :: pl :: _ => Some (mkWF n v EmptyString p a pl base)
+  | _ => None
+  end.
+
+Definition wheel_cand_of_filename (id : N) (v : version) (filename : string) : option cand :=
+  match wheel_fields_of filename with
+  | Some f => Some (wheel_cand id v (wf_build f) (wf_py f) (wf_abi f) (wf_plat f) (wf_file f))
+  | None => None
+  end.
+
+(* PEP 427: name-version[-build]-python-abi-platform.whl *)
+Definition wheel_filename (name ver build pyf abif platf : string) : string :=
+  name ++ "-" ++ ver ++ (match build with EmptyString => EmptyString | _ => "-" ++ build end)
+       ++ "-" ++ pyf ++ "-" ++ abif ++ "-" ++ platf ++ ".whl".
+
 (* PEP 425: a compressed tag set names the product of its three dotted components *)
 Definition tag := (string * string * string)%type.
 Definition wheel_has_tag (pyf abif platf : string) (t : tag) : Prop :=
